@@ -133,6 +133,12 @@ def run_case(ctx, k, rng):
 
 def forms_case(ctx, k, rng):
     A, fa = OM.random_connected(rng, 8); B, fb = OM.random_connected(rng, 8)
+    if rng.random() < 0.2:
+        # same size, same degrees, same distance profiles as far as one round of refinement sees - usually not isomorphic
+        A = [OM.complete_bipartite(3, 3), OM.cycle(6), OM.grid(2, 3), OM.complete_bipartite(4, 4), OM.cycle(8), OM.grid(2, 4),
+             OM.gnp_connected(rng, 7, 0.5)][int(rng.integers(0, 7))]
+        B = OM.two_switch(rng, A, int(rng.integers(1, 3)))
+        ctx.note("regular graph vs degree-preserving switch")
     A, _ = OM.relabel(rng, A); B, _ = OM.relabel(rng, B)
     ctx.begin(k, "forms", {"A": A, "B": B})
     DX, DY = OM.bfs_metric(A), OM.bfs_metric(B)
